@@ -58,6 +58,18 @@ def build_case(ident):
     single = IF.render(r, I, schemas=schemas)
     rng = random.Random("part:" + ident)
     docs, root, plan, decoys = IF.render_partitioned(r, I, rng, schemas=schemas)
+    bare = ('<xsd:import namespace="%s"/>' % IF.ENC).encode()
+    if any(bare in d for d in docs.values()) and rng.random() < 0.5:
+        # the graph brings its own copy of the SOAP encoding schema: an explicit schemaLocation names the document
+        # to load, whatever suds has built in for that namespace
+        import suds.store
+        url = rng.choice(["http://docs.invalid/schemas/soapenc.xsd", "suds://soapenc.xsd", "http://docs.invalid/a/enc.xsd"])
+        for u in list(docs):
+            docs[u] = docs[u].replace(bare, ('<xsd:import namespace="%s" schemaLocation="%s"/>'
+                                             % (IF.ENC, IF.relative_to(u, url, rng))).encode())
+        docs[url] = suds.store.soap5_encoding_schema
+        plan["own_soapenc"] = url
+        plan["documents"] = sorted(docs)
     st, net = DG.place(docs, decoys, rng)
     return I, single, docs, root, plan, decoys, st, net
 
@@ -223,7 +235,7 @@ def run(ctx):
             if u in decoys:
                 ctx.fail("an unreachable document was fetched", meta, u, "only documents reachable from the root")
         counts = collections.Counter(store.asked)
-        ctx.dist["max fetches of one document=%d" % max(counts.values())] += 1
+        ctx.dist["max fetches of one document=%d" % max(counts.values(), default=0)] += 1
         if plan.get("wsdl_diamond"):
             ctx.dist["wsdl:import diamond"] += 1
         # each Definitions document is fetched once, and builds its schema once with its own memo: no document
